@@ -231,7 +231,7 @@ def render_case(case):
 
 DEFAULT_OPTS = dict(
     max_fields=6, max_depth=2, max_len=4,
-    bits=True, signed_bits=True, wide_bits=True, enum_bits=True, char_bits=False,
+    bits=True, signed_bits=True, wide_bits=True, enum_bits=True, char_bits=True,
     enums=True, nested=True, unions=True, dyn_unions=False, ptrs=True, dyn=True, eof=True, floats=True,
     wide=True, wchar=True, leb=True, void=True, multidim=True, aliases=True, consts=True,
     fixed_only=False, null_struct=True, anon=True, named_structs=True, self_ptr=False,
@@ -395,9 +395,12 @@ class Gen:
                 t = enum["base"]
             else:
                 t = r.choice(pool)
-            size, signed = ALL_INTS[t]
+            is_char = enum is None and self.o["char_bits"] and self.chance(0.1)
+            if is_char:
+                t = "char"          # a one-byte storage type of its own (never shares a unit with uint8 / int8)
+            size, signed = ALL_INTS[t] if not is_char else (1, False)
             spelled = None
-            if enum is None and self.o["aliases"] and self.chance(0.15):
+            if enum is None and not is_char and self.o["aliases"] and self.chance(0.15):
                 cands = [a for a, c in INT_ALIASES.items() if c == t and " " not in a]
                 if cands:
                     spelled = r.choice(cands)  # the storage type written under one of its alias names
@@ -412,7 +415,8 @@ class Gen:
                 if rem == 0:
                     break
                 b = rem if (fill and j == cnt - 1) else r.randint(1, rem)
-                node = enum if (enum is not None and self.chance(0.6)) else N_int(t, spelled if self.chance(0.7) else None)
+                node = enum if (enum is not None and self.chance(0.6)) else (
+                    N_char() if is_char else N_int(t, spelled if self.chance(0.7) else None))
                 nm = self.nm()
                 fields.append(F(nm, node, bits=b, bitsep=r.choice([" : ", ":", " :", ": "])))
                 if b <= 3 and node["k"] == "int":
@@ -422,6 +426,8 @@ class Gen:
             self.feat("bits", "bits:signed" if signed else "bits:unsigned")
             if size in (3, 6, 16):
                 self.feat("bits:wide")
+            if is_char:
+                self.feat("bits:char")
             if enum is not None:
                 self.feat("bits:enum")
 
